@@ -1799,4 +1799,24 @@ Section Sound.
         destruct Hvb as [->|[b ->]]; reflexivity.
     - intros H _. rewrite H. reflexivity.
   Qed.
+
+  Lemma gen_in_range_sec mid tp v : gen vr o sch ann mid tp = Ok v -> small mid v -> rapid_in_range vr o sch ann mid v = true.
+  Proof.
+    intros Hgen Hsm. unfold rapid_in_range, rapid_in_range_at. apply sdeep_range; [unfold top_fuel; lia| |exact Hsm].
+    eapply gen_sdeep. exact Hgen.
+  Qed.
 End Sound.
+
+(* every output of the generator model (the code after its fix: commits) whose encoding fits a Go slice lies in
+   the range predicate: for every schema, option set and tape of draws *)
+Theorem gen_in_range : forall o sch ann,
+  wf sch = true -> ann_ok sch ann = true -> NoDup (map a_name ann) -> enums_ok sch ann ->
+  fmap_gen_sound o -> fmap_typed o -> fmap_bytes_norm o ->
+  forall mid tape v, gen code_variant o sch ann mid tape = Ok v ->
+    N.of_nat (length (emit sch false mid v)) < two63 ->
+    rapid_in_range code_variant o sch ann mid v = true.
+Proof.
+  intros o sch ann Hwf Hann Hnd Hen Hfm Hfty Hfbn mid tape v Hgen Hsm.
+  exact (gen_in_range_sec o sch ann Hfm Hwf Hnd Hann Hen Hfty Hfbn mid tape v Hgen Hsm).
+Qed.
+Print Assumptions gen_in_range.
